@@ -15,3 +15,61 @@ package hotline
 //@   ensures old(f.readOffset) >= len(W) ==> f.readOffset == old(f.readOffset)
 //@   ensures forall(i, 0, n, p[i] == W[old(f.readOffset)+i])
 //@   nopanic
+
+//@ func NewField(fieldType [2]byte, data []byte) (r Field)
+//@   requires len(data) <= 65535
+//@   ensures r.Type == fieldType && r.readOffset == 0
+//@   ensures len(r.Data) == len(data) && u16(bytes(r.FieldSize)) == len(data)
+//@   ensures forall(i, 0, len(data), r.Data[i] == old(data[i]))
+//@   ensures fresh(r.Data)
+//@   nopanic
+
+//@ func (f *Field) Write(p []byte) (n int, err error)
+//@   requires f != nil
+//@   ensures len(p) < 4 ==> err != nil && n == 0
+//@   ensures len(p) >= 4 && len(p) < 4+u16(bytes(p),2) ==> err != nil && n == 0
+//@   ensures len(p) >= 4 && len(p) >= 4+u16(bytes(p),2) ==> err == nil && n == 4+u16(bytes(p),2)
+//@   ensures err == nil ==> f.Type[0] == old(p[0]) && f.Type[1] == old(p[1]) && f.FieldSize[0] == old(p[2]) && f.FieldSize[1] == old(p[3])
+//@   ensures err == nil ==> len(f.Data) == n-4 && forall(i, 0, n-4, f.Data[i] == old(p[4+i])) && fresh(f.Data)
+//@   ensures err == nil ==> inv_Field(f)
+//@   nopanic
+
+//@ func FieldScanner(data []byte, atEOF bool) (advance int, token []byte, err error)
+//@   ensures err == nil
+//@   ensures (len(data) < 4 || len(data) < 4+u16(bytes(data),2)) ==> advance == 0 && isnil(token)
+//@   ensures len(data) >= 4 && len(data) >= 4+u16(bytes(data),2) ==> advance == 4+u16(bytes(data),2) && same(token, data[0:advance])
+//@   nopanic
+
+//@ func transactionScanner(data []byte, atEOF bool) (advance int, token []byte, err error)
+//@   let need := 20 + u32(bytes(data),12)
+//@   requires len(data) >= 16 ==> u32(bytes(data),12) <= 2147483647
+//@   ensures err == nil
+//@   ensures (len(data) < 16 || len(data) < need) ==> advance == 0 && isnil(token)
+//@   ensures len(data) >= 16 && len(data) >= need ==> advance == need && same(token, data[0:advance])
+//@   nopanic
+
+//@ func (f *Field) DecodeInt() (v int, err error)
+//@   requires f != nil
+//@   ensures len(f.Data) == 2 ==> err == nil && v == u16(bytes(f.Data))
+//@   ensures len(f.Data) == 4 ==> err == nil && v == u32(bytes(f.Data))
+//@   ensures len(f.Data) != 2 && len(f.Data) != 4 ==> err != nil
+//@   nopanic
+
+//@ define wire_User(u) := cat(bytes(u.ID), bytes(u.Icon), bytes(u.Flags), be16(len(u.Name)), bytes(u.Name))
+
+//@ func (u *User) Read(p []byte) (n int, err error)
+//@   requires u != nil && u.readOffset >= 0 && len(u.Icon) == 2 && len(u.Flags) == 2 && len(u.Name) <= 65535
+//@   let W := old(wire_User(u))
+//@   ensures old(u.readOffset) >= len(W) ==> n == 0 && is_eof(err)
+//@   ensures old(u.readOffset) < len(W) ==> err == nil && n == min(len(p), len(W)-old(u.readOffset))
+//@   ensures old(u.readOffset) < len(W) ==> u.readOffset == old(u.readOffset)+n
+//@   ensures forall(i, 0, n, p[i] == W[old(u.readOffset)+i])
+//@   nopanic
+
+//@ func EncodeString(clearText []byte) (obfuText []byte)
+//@   ensures len(obfuText) == len(clearText) && fresh(obfuText)
+//@   ensures forall(i, 0, len(clearText), obfuText[i] == 255 - old(clearText[i]))
+//@   loop 1 invariant 0 <= i && i <= len(clearText) && len(obfuText) == len(clearText) && fresh(obfuText)
+//@   loop 1 invariant forall(j, 0, i, obfuText[j] == 255 - old(clearText[j]))
+//@   loop 1 modifies obfuText
+//@   nopanic
